@@ -302,4 +302,79 @@ theorem cross_protocol_char_alt_shift (u : Uni) (c C : Int) (f : Form)
 
 example : (({ withShifted := true, withMods := true, withEvent := true } : Form).hasMods = true) := by decide
 
+/-! ## The run-time evaluators of the hypotheses (`Spec.KeyEncUni.hyp*`, used by the driver) imply the theorems' hypotheses -/
+
+/-- The run-time form of `cross_protocol_char_plain`: when the Bool evaluator the driver runs on Go's
+    values (`hyp plain` ops) finds no violated hypothesis, and the table lists every lower-case rune
+    of `u` (the driver's `mkUni` answers `false` outside the table; the harness lists every
+    lower-case pre-image of `c`), the conclusion holds for that `u`.  So every `xpu plain hyp-ok` case
+    is an instance of the theorem. -/
+theorem cross_protocol_char_plain_checked (u : Uni) (dom : List Int) (c : Int) (f : Form)
+    (hf : f.withShifted = false ∧ f.withBase = false)
+    (hdom : ∀ r, r ∉ dom → u.isLower r = false)
+    (hok : violated (hypPlain u dom c f.withText) = []) :
+    let kL := decodeKey u (.print [c])
+    let kK := decodeKey u (kittySeq c 117 { key := c, text := [c] } f)
+    keyString u kL = keyString u kK ∧ ∀ b m, «matches» u kL b m = «matches» u kK b m := by
+  cases hwt : f.withText
+  · rw [hwt] at hok
+    simp [violated, hypPlain, noLowerMapsTo] at hok
+    obtain ⟨hv, hdel, hup, hfun, hfffd, hno⟩ := hok
+    refine cross_protocol_char_plain u c f hv hdel hup hfun hf (fun _ => hfffd) (fun _ r hl => ?_)
+    by_cases hr : r ∈ dom
+    · rcases hno r hr with h | h
+      · rw [h] at hl; cases hl
+      · exact h
+    · rw [hdom r hr] at hl; cases hl
+  · rw [hwt] at hok
+    simp [violated, hypPlain] at hok
+    obtain ⟨hv, hdel, hup, hfun⟩ := hok
+    exact cross_protocol_char_plain u c f hv hdel hup hfun hf (fun h => by rw [hwt] at h; cases h) (fun h => by rw [hwt] at h; cases h)
+
+example : violated (hypPlain latinUni [97, 233, 201, 223] 233 false) = [] := by decide +kernel
+example : violated (hypPlain latinUni [97, 233, 201, 223] 223 false) = ["noLowerMapsTo"] := by decide +kernel
+
+/-- Run-time form of `cross_protocol_char_shift` (`hyp shift` ops). -/
+theorem cross_protocol_char_shift_checked (u : Uni) (c C : Int) (f : Form)
+    (hf : f.withShifted = true ∧ f.withBase = false ∧ f.hasMods = true)
+    (hok : violated (hypShift u c C f.withText) = []) :
+    let kL := decodeKey u (.print [C])
+    let kK := decodeKey u (kittySeq c 117 { key := c, mods := shiftBit, shifted := C, text := [C] } f)
+    keyString u kL = keyString u kK ∧ ∀ b m, «matches» u kL b m = «matches» u kK b m := by
+  cases hwt : f.withText
+  · rw [hwt] at hok
+    simp [violated, hypShift] at hok
+    obtain ⟨⟨hv, hV⟩, hup, hlow, hdel, hfun, hpr, htu⟩ := hok
+    exact cross_protocol_char_shift u c C f hv hV hdel hup hlow hfun hf (fun _ => hpr) (fun _ => htu)
+  · rw [hwt] at hok
+    simp [violated, hypShift] at hok
+    obtain ⟨⟨hv, hV⟩, hup, hlow, hdel, hfun⟩ := hok
+    exact cross_protocol_char_shift u c C f hv hV hdel hup hlow hfun hf (fun h => by rw [hwt] at h; cases h) (fun h => by rw [hwt] at h; cases h)
+
+example : violated (hypShift latinUni 233 201 false) = [] := by decide +kernel
+
+/-- Run-time form of `cross_protocol_char_alt` (`hyp alt` ops). -/
+theorem cross_protocol_char_alt_checked (u : Uni) (c : Int) (f : Form)
+    (hf : f.withShifted = false ∧ f.withBase = false ∧ f.hasMods = true ∧ f.withText = false)
+    (hok : violated (hypAlt u c) = []) :
+    let kL := decodeKey u (.esc c)
+    let kK := decodeKey u (kittySeq c 117 { key := c, mods := altBit } f)
+    keyString u kL = keyString u kK ∧ ∀ b m, «matches» u kL b m = «matches» u kK b m := by
+  simp [violated, hypAlt] at hok
+  obtain ⟨hv, hup, hfun⟩ := hok
+  exact cross_protocol_char_alt u c f hv hup hfun hf
+
+/-- Run-time form of `cross_protocol_char_alt_shift` (`hyp altshift` ops). -/
+theorem cross_protocol_char_alt_shift_checked (u : Uni) (c C : Int) (f : Form)
+    (hf : f.withShifted = true ∧ f.withBase = false ∧ f.hasMods = true ∧ f.withText = false)
+    (hok : violated (hypAltShift u c C) = []) :
+    let kL := decodeKey u (.esc C)
+    let kK := decodeKey u (kittySeq c 117 { key := c, mods := altBit ||| shiftBit, shifted := C } f)
+    keyString u kL = keyString u kK ∧ ∀ b m, «matches» u kL b m = «matches» u kK b m := by
+  simp [violated, hypAltShift] at hok
+  obtain ⟨⟨hv, hV⟩, hup, hlow, hfun⟩ := hok
+  exact cross_protocol_char_alt_shift u c C f hv hV hup hlow hfun hf
+
+example : violated (hypAlt latinUni 233) = [] ∧ violated (hypAltShift latinUni 233 201) = [] := by decide +kernel
+
 end VaxisModel.Props.C09Uni
